@@ -144,13 +144,14 @@ class HistogramBase(abc.ABC):
         kwargs = new_kwargs
 
         # Frequencies + appropriate dtypes
+        dtype_given = dtype is not None
         if frequencies is None:
             dtype = dtype or np.int64
             self._frequencies = np.zeros(self.shape, dtype=dtype)
         else:
             # Copies: the histogram owns its data (they may be the arrays of another one)
             if dtype is not None:
-                frequencies = np.array(frequencies, dtype=dtype)
+                frequencies = self._cast_given(np.array(frequencies), dtype, strict=True)
             else:
                 frequencies = np.array(frequencies)
                 if frequencies.dtype in self.SUPPORTED_DTYPES:
@@ -171,7 +172,11 @@ class HistogramBase(abc.ABC):
         if errors2 is None:
             self.errors2 = abs(self._frequencies.copy())
         else:
-            self.errors2 = np.array(errors2, dtype=self.dtype)
+            # Values the content type cannot hold promote it (as the setter does) or,
+            # if the type was asked for, are refused
+            self.errors2 = self._cast_given(
+                np.array(errors2), self.dtype, strict=frequencies is not None and dtype_given
+            )
 
         self.keep_missed = keep_missed
         # Note: missed are dealt differently in 1D/ND cases
@@ -179,6 +184,24 @@ class HistogramBase(abc.ABC):
         # Nested values too (a tree from `to_dict()` still belongs to its histogram)
         self._meta_data = copy.deepcopy(kwargs)
         self.axis_names = tuple(axis_names or self.default_axis_names)
+
+    @staticmethod
+    def _cast_given(values: np.ndarray, dtype: DTypeLike, *, strict: bool) -> np.ndarray:
+        """Contents / squared errors handed to the constructor, in the content type.
+
+        An integer type must hold them exactly: otherwise they are refused (strict)
+        or left as they are (for the setter to promote the histogram).
+        """
+        dtype = np.dtype(dtype)
+        if dtype.kind not in "iu" or values.dtype == dtype:
+            return values.astype(dtype)
+        with np.errstate(all="ignore"):
+            narrow = values.astype(dtype)
+        if np.array_equal(narrow, values):
+            return narrow
+        if strict:
+            raise ValueError(f"Values cannot be stored as {dtype} without loss.")
+        return values
 
     # Make numpy scalars / arrays on the left-hand side of an operator defer to
     # our reflected methods (otherwise `np.int64(2) * h` degrades to a bare array).
